@@ -206,6 +206,7 @@ class SVal:
         self.seq_of = {}      # id(return / raise statement) -> sequence number
         self.loops = {}       # id -> (node, iter term)
         self.loop_updates = {}  # id -> {name: term after one iteration}
+        self.loop_inits = {}    # id -> {name: term before the loop}
         self._wsets = None
         env = {}
         a = fi.node.args
@@ -263,6 +264,20 @@ class SVal:
         out = None
         for pc, v in reversed(vals):
             out = v if out is None else mk_cond(pc_term(pc), v, out)
+        return out
+
+    def stored_value(self, target):
+        """what the stores to `target` (an attribute / element term) leave there, folded in program order: a store under a
+        condition overrides the earlier value only when the condition holds"""
+        target = strip_ids(target)
+        sts = [(v, pc) for t, v, pc, _, _ in self.stores if strip_ids(t) == target]
+        if not sts:
+            return None
+        common = [a for a in sts[0][1] if all(a in pc for _, pc in sts)]
+        out = None
+        for v, pc in sts:
+            rel = tuple(a for a in pc if a not in common)
+            out = v if (out is None or not rel) else mk_cond(pc_term(rel), v, out)
         return out
 
     def calls_to(self, name=None, qual=None, lib=None, callee=None):
@@ -576,6 +591,7 @@ class SVal:
                     body_env[k] = marks[k]
                 else:
                     body_env[k] = ('loopvar', k, lid)
+        self.loop_inits[lid] = {k: env[k] for k in stored if not isinstance(k, tuple) and k in env}
         if isinstance(st, ast.For):
             it = self._bind_iter(st.target, it, lid, body_env, pc, st)
             bpc = pc
